@@ -1254,9 +1254,19 @@ def build_frame(name, h, edits):
     return f
 
 
+def items_frame(spec):
+    """a VALSET frame from items the caller made by hand: group, item, bits, signed flag (which may say something else than the
+    key table does), value"""
+    from comp_codec import parse_items
+    from ubxlib.cfgkeys import CfgKeyData
+    from ubxlib.ubx_cfg_valset import UbxCfgValSetAction
+    return UbxCfgValSetAction([CfgKeyData(f'item{k}', g, i, b, v, sg) for k, (g, i, b, sg, v) in enumerate(parse_items(spec))])
+
+
 def run_level(line, debug):
     p = line.split('|')
     kind, name, h, edits, retries, delay, txs, rxs = p[1:9]
+    again = int(p[9]) if len(p) > 9 and p[9] else 0          # the same frame object sent this many times more
     txl = [t == '1' for t in txs.split(',')] if txs else []
     rx = [(int(e.split(':')[0]), bytes.fromhex(e.split(':')[1])) for e in rxs.split(',')] if rxs else []
     log_level(debug, LEVEL_SPLIT[0] if debug else None)
@@ -1268,11 +1278,14 @@ def run_level(line, debug):
         s.set_retries(int(retries))
         s.set_retry_delay(int(delay))
         try:
-            f = build_frame(name, h, edits)
+            f = items_frame(h) if name == 'ITEMS' else build_frame(name, h, edits)
         except Exception as e:
             return 'build-EXC:' + exc_name(e), None
         rs = call(s, kind, f)
-        return f'{rs} sent={len(s.sent)} nrx={s.nrx} t={CLK.ticks - T0} calls={s.calls}', (f, s)
+        for _ in range(again):
+            rs += '/' + call(s, kind, f)
+        more = (' bytes=' + ','.join(bytes(b).hex() for b in s.sent)) if again or name == 'ITEMS' else ''
+        return f'{rs} sent={len(s.sent)} nrx={s.nrx} t={CLK.ticks - T0} calls={s.calls}{more}', (f, s)
     finally:
         log_level(False)
 
@@ -1310,6 +1323,8 @@ def model_line_level(line):
         return line[len('level'):]
     p = line.split('|')
     kind, name, h, edits, retries, delay, txs, rxs = p[1:9]
+    if (len(p) > 9 and p[9]) or name == 'ITEMS':
+        return 'no-model'             # one frame object used for several requests: judged by the oracle alone
     out, st = run_level(line, False)
     if st is None:
         return 'bad-line'
@@ -1376,8 +1391,28 @@ def gen_level(rng, n, profile):
             data = rng.choice([frame(5, 1, [c, i]), frame(5, 0, [c, i]), frame(5, 1, [c, i ^ 1]), frame(0x13, 0x60, [1, 0, 0, i, 0, 0, 0, 0]),
                                frame(0x13, 0x60, [0, 0, 0, i, 0, 0, 0, 0]), b'', noise(rng)])
             rx.append((rng.choice([1, 5, 50, 100]), data))
+        again = rng.choice(['', '', '', '1', '2'])
         yield '|'.join(['level', kind, name, h, edits, str(retries), str(delay), ','.join('1' if rng.random() < .9 else '0' for _ in range(retries + 1)),
-                        ','.join(f'{dt}:{d.hex()}' for dt, d in rx)])
+                        ','.join(f'{dt}:{d.hex()}' for dt, d in rx)] + ([again] if again else []))
+    # VALSET frames from items made by hand (their sign flag need not be the key table's), the frame sent once or several times
+    from comp_codec import published_keys
+    keys = published_keys()
+    for k in range(max(12, n // 8)):
+        items = []
+        for _ in range(rng.randrange(1, 4)):
+            if rng.random() < 0.75:
+                key = rng.choice(keys)
+                g, i, bits = (key >> 16) & 0xFF, key & 0xFFF, [0, 1, 8, 16, 32, 64, 0, 0][(key >> 28) & 7]
+            else:
+                g, i, bits = rng.randrange(256), rng.randrange(4096), rng.choice([1, 8, 16, 32, 64])
+            sg = rng.random() < 0.5
+            w = max(bits, 8)
+            v = rng.choice([0, 1, 2 ** (w - 1) - 1, 2 ** (w - 1), 2 ** w - 1, -1, -2 ** (w - 1), rng.randrange(2 ** w)]) if bits > 1 else rng.choice([0, 1])
+            items.append(f'{g},{i},{bits},{int(sg)},{v}')
+        retries = rng.randrange(0, 2)
+        rx = [(rng.choice([1, 5, 50]), frame(5, 1, [6, 0x8a])) for _ in range(rng.randrange(0, 4))]
+        yield '|'.join(['level', 'set', 'ITEMS', ';'.join(items), '', str(retries), str(rng.choice([1, 125])), ','.join('1' for _ in range(retries + 1)),
+                        ','.join(f'{dt}:{d.hex()}' for dt, d in rx), rng.choice(['', '1', '1', '2'])])
 
 
 # =====================================================================================================
